@@ -133,11 +133,30 @@ def mixed_name_pairs(ctx, n):
         yield case, cfg
 
 
+def flat_pairs(ctx, n):
+    """13 … 16 projects that all have the same welfare per unit of cost (every voter approves everything, cost satisfaction): the
+    maximiser's answer is a subset-sum optimum that no ordering by efficiency helps to find — and a size that the toy elections never
+    reach (round 7, C13-r7A: a shortcut for "more than 12 items of equal efficiency" that fills in iteration order)"""
+    rng = ctx.rng
+    for _ in range(n):
+        r = random.Random(rng.getrandbits(48))
+        m = r.randint(13, 15)
+        names = r.sample(core.NAME_POOL, m) if len(core.NAME_POOL) >= m else ["q%02d" % i for i in range(m)]
+        costs = [F(r.randint(2, 19)) for _ in range(m)]
+        tot = sum(costs)
+        budget = F(r.randint(int(tot) // 3, (2 * int(tot)) // 3))
+        case = Case(list(zip(names, costs)), budget, "app", [list(names) for _ in range(r.randint(1, 3))], r.getrandbits(40))
+        cfg = {"rule": "maxw", "sat": "Cost_Sat", "algo": "pd", "res": True, "tie": "lexico", "multi": r.random() < 0.3}
+        ctx.count("stream", "flat-efficiency:%d projects" % m)
+        yield case, cfg
+
+
 def all_pairs(ctx, n, n_exact):
     yield from pairs(ctx, n)
     yield from exact_pairs(ctx, n_exact)
     yield from tight_pairs(ctx, (n_exact * 3) // 4)
     yield from mixed_name_pairs(ctx, n_exact // 2)  # round 6 (drawn last)
+    yield from flat_pairs(ctx, max(8, n_exact // 100))  # round 7
 
 
 def run(ctx, n=None, compare=True, hashseeds=None, n_exact=None):
@@ -260,6 +279,34 @@ def run(ctx, n=None, compare=True, hashseeds=None, n_exact=None):
     from .. import relabel
 
     relabel.run(ctx, min(3000, max(300, n // 4)))
+    from .. import history
+
+    history.run_profile_history(ctx, min(4000, max(400, n // 3)), history_predicate, history_cfg)
+
+
+def history_cfg(rng, case, multi):
+    """one call inside a history on ONE profile object edited in place: a rule whose answer reads the profile through helpers that
+    could remember it (approval scores for Phragmen and for the approval-score tie-breaking, satisfaction totals for the others)"""
+    rule = rng.choice(["phragmen", "greedy", "greedy", "mes"])
+    cfg = rulegen.gen_rule_cfg(rng, case, rules=(rule,), allow_refuse=False)
+    if rng.random() < 0.6:
+        cfg["tie"] = "app_score"
+    cfg["multi"] = multi
+    cfg["res"] = True
+    return cfg
+
+
+def history_predicate(it):
+    """the answer on the long-lived, edited object = the answer on a freshly built profile holding the same voters (the outcome is a
+    function of the election alone; nothing an earlier call saw may survive).  Round 7, C13-r7B: approval scores memoised on the
+    profile and refreshed only when the NUMBER of ballots changes"""
+    cfg = {k: v for k, v in it.cfg.items() if k not in ("init_obj",)}
+    fresh, *_ = answer(it.case, cfg)
+    got = rules.canon(it.ans)
+    if got != fresh:
+        return [violation("the outcome on a profile object that was edited in place differs from the outcome on a freshly built profile with the same voters",
+                          it.case, cfg, impl=got, expected=fresh, sig={"rule": cfg["rule"], "sat": cfg.get("sat"), "clause": "edited_object", "tie": cfg.get("tie")})]
+    return []
 
 
 def search(ctx, disagreements):
@@ -267,6 +314,10 @@ def search(ctx, disagreements):
 
 
 def replay(payload):
+    if payload.get("cfg", {}).get("profile_history"):
+        from .. import history
+
+        return history.replay_profile_history(payload, history_predicate)
     if payload.get("cfg", {}).get("relabel"):
         from .. import relabel
 
